@@ -228,7 +228,7 @@ func (e *Env) viewObligations(k *scoreKit, rule string) {
 func c02(e *Env) {
 	scoreBoiler(e)
 	c := e.C
-	c.Explanation = "v3 (*Temporal).Score is extracted as guarded terms and compared with roundUp(BaseScore*E*RL*RC), where BaseScore must be the call of (*Base).Score on the receiver's embedded Base (hence the already rounded base score). The constructor is checked to initialise E, RL, RC with the constant whose code is X, and the temporal weight tables (including X = 1) are decided by the C20 obligations re-evaluated here."
+	c.Explanation = "v3 (*Temporal).Score is extracted as guarded terms and compared with roundUp(BaseScore*E*RL*RC), where BaseScore must be the call of (*Base).Score on the receiver's embedded Base (hence the already rounded base score), and (*Base).Score itself with the base equation of C01. The constructor is checked to initialise E, RL, RC with the constant whose code is X, and the temporal weight tables (including X = 1) are decided by the C20 obligations re-evaluated here."
 	k := e.newScoreKit(&spec.V3, "score-term")
 	if k == nil {
 		return
@@ -238,10 +238,13 @@ func c02(e *Env) {
 	c.Floor("constructor-default", 3)
 	e.guardPanics("score-term", "v3 Temporal.Score reference", func() {
 		e.termV3Temporal(k)
+		// BaseScore in the temporal equation is the specification's base score: the embedded level's Score must be
+		// the base equation (C01's term, re-decided here with the base weights)
+		e.termV3Base(k)
 		e.roundUpReference(k, "round-up-helper")
 		k.validChain("valid-chain")
 	})
-	e.weightObligations(&spec.V3, "E", "RL", "RC")
+	e.weightObligations(&spec.V3, "AV", "AC", "PR", "UI", "S", "C", "I", "A", "E", "RL", "RC")
 	e.constructorDefaults(k.level("Temporal"), "constructor-default")
 	e.objectIntegrity(&spec.V3, "Temporal")
 }
